@@ -24,17 +24,17 @@ func entityCases() []entCase {
 			fmt.Sprintf("mkE (bs \"foo.v1\") (bs \"Foo\") [] [%s] [] [bs \"ACTIVE\"] [] [] [] None []", pk),
 			"package foo.v1\n\nentity Foo {\n  key fooId key:id62 {\n    primary = true\n  }\n  status ACTIVE\n}\n"},
 		{"data events command summary query schema",
-			fmt.Sprintf("mkE (bs \"foo.v1\") (bs \"Foo\") [] [%s] [%s; mkU (bs \"part\") (KObject (bs \"Part\")) false false] [bs \"ACTIVE\"; bs \"INACTIVE\"] [mkEv (bs \"Create\") [%s]; mkEv (bs \"Archive\") []] [mkC None None [mkM (bs \"Rename\") 2 (bs \"rename\") [mkU (bs \"name\") (KScalar 9 (bs \"string\")) true false] None]] [mkS [] [%s]] (Some (mkQ true [])) [SObject (bs \"Part\") [%s]]",
+			fmt.Sprintf("mkE (bs \"foo.v1\") (bs \"Foo\") [] [%s] [%s; mkU (bs \"part\") (KObject (bs \"Part\")) false false] [bs \"ACTIVE\"; bs \"INACTIVE\"] [mkEv (bs \"Create\") [%s]; mkEv (bs \"Archive\") []] [mkC None None [mkM (bs \"Rename\") 2 (bs \"rename\") [mkU (bs \"name\") (KScalar 9 (bs \"string\")) true false] None]] [mkS [] [%s]] (Some (mkQ true [] false)) [SObject (bs \"Part\") [%s]]",
 				pk, str("name"), str("name"), str("name"), str("x")),
 			"package foo.v1\n\nentity Foo {\n  key fooId key:id62 {\n    primary = true\n  }\n  data name string\n  data part object:Part\n  status ACTIVE\n  status INACTIVE\n  event Create {\n    field name string\n  }\n  event Archive {\n  }\n  command {\n    method Rename {\n      httpMethod = \"POST\"\n      httpPath = \"rename\"\n      request {\n        field name ! string\n      }\n    }\n  }\n  summary {\n    field name string\n  }\n  object Part {\n    field x string\n  }\n  query {\n    eventsInGet = true\n  }\n}\n"},
 		{"data refers to a missing object",
 			fmt.Sprintf("mkE (bs \"foo.v1\") (bs \"Foo\") [] [%s] [mkU (bs \"part\") (KObject (bs \"Missing\")) false false] [bs \"ACTIVE\"] [] [] [] None []", pk),
 			"package foo.v1\n\nentity Foo {\n  key fooId key:id62 {\n    primary = true\n  }\n  data part object:Missing\n  status ACTIVE\n}\n"},
 		{"tenant key, enum schema, default status filter",
-			fmt.Sprintf("mkE (bs \"foo.v1\") (bs \"Foo\") [] [%s; mkK (mkU (bs \"accountId\") (KKey false None (Some (bs \"account\"))) false false) false] [mkU (bs \"kind\") (Entity.KEnum (bs \"Kind\")) false false] [bs \"ACTIVE\"; bs \"INACTIVE\"] [mkEv (bs \"Create\") [%s]] [] [] (Some (mkQ false [bs \"ACTIVE\"])) [SEnum (bs \"Kind\") [bs \"A\"; bs \"B\"]]", pk, str("name")),
+			fmt.Sprintf("mkE (bs \"foo.v1\") (bs \"Foo\") [] [%s; mkK (mkU (bs \"accountId\") (KKey false None (Some (bs \"account\"))) false false) false] [mkU (bs \"kind\") (Entity.KEnum (bs \"Kind\")) false false] [bs \"ACTIVE\"; bs \"INACTIVE\"] [mkEv (bs \"Create\") [%s]] [] [] (Some (mkQ false [bs \"ACTIVE\"] false)) [SEnum (bs \"Kind\") [bs \"A\"; bs \"B\"]]", pk, str("name")),
 			"package foo.v1\n\nentity Foo {\n  key fooId key:id62 {\n    primary = true\n  }\n  key accountId key:id62 {\n    tenant = \"account\"\n  }\n  data kind enum:Kind\n  status ACTIVE\n  status INACTIVE\n  event Create {\n    field name string\n  }\n  enum Kind {\n    option A\n    option B\n  }\n  query {\n    defaultStatusFilter = [\"ACTIVE\"]\n  }\n}\n"},
 		{"unknown default status filter",
-			fmt.Sprintf("mkE (bs \"foo.v1\") (bs \"Foo\") [] [%s] [] [bs \"ACTIVE\"] [] [] [] (Some (mkQ false [bs \"NOPE\"])) []", pk),
+			fmt.Sprintf("mkE (bs \"foo.v1\") (bs \"Foo\") [] [%s] [] [bs \"ACTIVE\"] [] [] [] (Some (mkQ false [bs \"NOPE\"] false)) []", pk),
 			"package foo.v1\n\nentity Foo {\n  key fooId key:id62 {\n    primary = true\n  }\n  status ACTIVE\n  query {\n    defaultStatusFilter = [\"NOPE\"]\n  }\n}\n"},
 		{"optional primary key",
 			"mkE (bs \"foo.v1\") (bs \"Foo\") [] [mkK (mkU (bs \"fooId\") (KKey true None None) false true) false] [] [bs \"ACTIVE\"] [] [] [] None []",
